@@ -30,13 +30,26 @@ def gen_case(rng, thorough, expiry=False):
         deps[a] = deps[a] + ["!%s.%s" % (b, rng.choice(["disabled", "note"]))]
     ops = []
     now = int(time.time())
+    def via_action(t, key):
+        """the write is issued by a rule action (Env.AddRule / Env.AddFact / Env.RemFact): its argument reaches the location as
+        exported by the Javascript runtime (an array of strings as []string, integers as int64)"""
+        rid = "%s_%s" % (key, t["id"].replace("!", "").replace(".", "_"))
+        ops.append({"op": "addRule", "id": rid, "rule": {"when": {"pattern": {key: t["id"]}}, "action": {"code": js_of_tmpl(t), "verif_tmpl": t}}})
+        ops.append({"op": "event", "event": {key: t["id"]}})
+        ops.append({"op": "remRule", "id": rid})
+    js = rng.random() < 0.3
     for n in nodes:
         r = rng.random()
         dw = deps[n]
         if r < 0.2:
             rule = {"when": {"pattern": {"a": "?x"}}, "action": A}
             if dw: rule["deleteWith"] = dw
-            ops.append({"op": "addRule", "id": n, "rule": rule})
+            if js and rng.random() < 0.6: via_action({"t": "addrule", "id": n, "rule": rule}, "make")
+            else: ops.append({"op": "addRule", "id": n, "rule": rule})
+        elif js and r < 0.5:
+            f = {"v": rng.choice([1, "x", True]), "k": n}
+            if dw: f["deleteWith"] = dw
+            via_action({"t": "addfact", "id": n, "fact": f}, "make")
         else:
             f = {"v": rng.choice([1, "x", True]), "k": n}
             if rng.random() < 0.5: f["ref"] = rng.choice(nodes + ["ghost"])      # merely mentions another id: not a dependency
@@ -63,6 +76,7 @@ def gen_case(rng, thorough, expiry=False):
         for n in nodes[: rng.randint(1, len(nodes))]:
             z = rng.random()
             if z < 0.1: ops.append({"op": "enableRule", "id": n, "enable": True})    # removes the flag fact !n.disabled (and what hangs on it)
+            elif js and z < 0.4: via_action({"t": "remfact", "id": n}, "kill")
             else: ops.append({"op": rng.choice(["remFact", "remFact", "remRule"]), "id": n if z < 0.85 else rng.choice(["ghost", "!%s.disabled" % n, "!%s.note" % n])})
             ops.append({"op": "snapshot"})
     for o in ops: o["loc"] = "a"
@@ -112,4 +126,5 @@ def main():
     proof_verdict(ck, pr)
     ck.finish()
 
-main()
+if __name__ == "__main__":
+    main()
